@@ -370,7 +370,11 @@ def normalize(scn, raw):
             started = any(x["e"] == "x.start" and x["call"] == e["call"] for x in ev)
             if e["got"] == "raise" and not started and ctxf in ("asyncio", "trio") and ctxf == call.get("flavour"):
                 # refused: a coroutine payload asked its own flavour's loop for a blocking execute
-                out.append({"e": "ExecRefused", "x": "x%d" % e["call"]})
+                out.append({"e": "ExecRefused", "x": "x%d" % e["call"], "why": "same"})
+            elif e["got"] == "raise" and not started:
+                # refused without the payload ever starting: the runtime is going down (or gone)
+                # and has no runner left for it
+                out.append({"e": "ExecRefused", "x": "x%d" % e["call"], "why": "down"})
             elif e["got"] == "raise" and started and not any(x["e"] == "x.end" and x["call"] == e["call"] for x in ev[:i]):
                 # the payload was running and has not ended: the runtime went down under it
                 out.append({"e": "ExecAborted", "x": "x%d" % e["call"], "exc": str(e.get("exc", ""))})
